@@ -18,7 +18,7 @@ RUN_MODULE = 'Run.C06'
 THEOREMS = ['C06_get_complete', 'C06_no_errors', 'C06_crash_safe', 'C06_crash_then_get',
             'C06_uncommitted_invisible', 'C06_lookup_visible', 'C06_hex_keys_not_temp',
             'C06_crash_safe_tree', 'C06_crash_leaves_temps', 'C06_tree_refines_main',
-            'C06_indexed_is_served', 'C06_split_lookup_refuted']
+            'C06_indexed_is_served', 'C06_split_lookup_refuted', 'C06_restart_indexes_all']
 ASSUMPTIONS = [
     'atomic steps are the lock sections of DiskCache::put/get (Reserve, each chunk of the unlocked write, Commit or '
     'Abandon; Open, Read); rename(2) switches a directory entry atomically and an open descriptor keeps reading the '
